@@ -361,7 +361,13 @@ func (g *G) Port() int {
 	}
 }
 
-func (g *G) Data(max int) []byte { return g.R.Bytes(g.R.Intn(max + 1)) }
+// Data: random payload of 0..max bytes; 2 % of the payloads are large (up to a full 1500-byte MTU).
+func (g *G) Data(max int) []byte {
+	if g.R.Chance(2) {
+		return g.R.Bytes(g.R.Intn(1461))
+	}
+	return g.R.Bytes(g.R.Intn(max + 1))
+}
 
 // L4 builds a transport segment for the given IP protocol number; class describes it.
 func (g *G) L4(proto byte, v6 bool) (seg []byte, class string) {
@@ -490,7 +496,7 @@ func (g *G) caps(e Emit, f []byte, class string) {
 func Generate(g *G, thorough bool, e Emit) {
 	scale := 1
 	if thorough {
-		scale = 20
+		scale = 40
 	}
 	r := g.R
 	// 1. structured stream: well-formed frames of every class, random capacity variant
@@ -652,6 +658,38 @@ func Generate(g *G, thorough bool, e Emit) {
 			seg = seg[:n]
 			g.caps(e, Ether(g.DstMAC(), MACClient1, 0x0800, IP4(5, 20+n, pr.proto, g.IP4(), g.IP4(), nil, seg)), "b.l4cut4")
 			g.caps(e, Ether(g.DstMAC(), MACClient1, 0x86dd, IP6(n, pr.proto, g.IP6(), g.IP6(), seg)), "b.l4cut6")
+		}
+	}
+	// 2j. full-size frames: a maximal frame (1522 bytes) of each IP class cut at every length 0..1522 in the thorough
+	// tier, at every 23rd length plus the last 4 otherwise
+	for _, mk := range []func(seg []byte) []byte{
+		func(seg []byte) []byte {
+			return Ether(g.DstMAC(), MACClient1, 0x0800, IP4(5, 20+len(seg), 17, g.IP4(), g.IP4(), nil, seg))
+		},
+		func(seg []byte) []byte {
+			return Ether(g.DstMAC(), MACClient1, 0x0800, IP4(5, 20+len(seg), 6, g.IP4(), g.IP4(), nil, seg))
+		},
+		func(seg []byte) []byte {
+			return Ether(g.DstMAC(), MACClient1, 0x86dd, IP6(len(seg), 17, g.IP6(), g.IP6(), seg))
+		},
+		func(seg []byte) []byte {
+			return Ether(g.DstMAC(), MACClient1, 0x86dd, IP6(len(seg), 58, g.IP6(), g.IP6(), seg))
+		},
+	} {
+		full := mk(cat(be16(g.Port()), be16(g.Port()), r.Bytes(1600)))[:1522]
+		for n := 0; n <= 1522; n++ {
+			if thorough || n%23 == 0 || n >= 1519 {
+				f := append([]byte{}, full[:n]...)
+				// keep the length fields consistent with the cut for half of the frames
+				if r.Bool() && n >= 54 {
+					if f[12] == 0x08 {
+						f[16], f[17] = byte((n-14)>>8), byte(n-14)
+					} else {
+						f[18], f[19] = byte((n-54)>>8), byte(n-54)
+					}
+				}
+				e(f, g.Spare(n, r.Intn(3)), "b.fullsize")
+			}
 		}
 	}
 	// 3. malformed: random bytes, and single-byte mutations of structured frames
